@@ -394,8 +394,11 @@ class Extractor {
                         work.pop_back();
                         if (!R->hasDefinition() || !seen.insert(R).second) continue;
                         bases.push_back(jstr(R->getQualifiedNameAsString()));
+                        // only publicly inherited bases: a handler for a base class matches through an accessible
+                        // (public) unambiguous base only
                         for (auto &B : R->bases())
-                            if (auto *BR = B.getType()->getAsCXXRecordDecl()) work.push_back(BR);
+                            if (B.getAccessSpecifier() == AS_public)
+                                if (auto *BR = B.getType()->getAsCXXRecordDecl()) work.push_back(BR);
                     }
                 }
                 o.raw("thrownbases", jarr(bases));
